@@ -97,10 +97,22 @@ Definition group_of (x : sx) : list sx :=
   | _ => []
   end.
 
+(* leg "reader": ( (label..) ( (mode (#piece ..)) ... ) ): the digest of a reader that delivers these pieces *)
+Definition run_reader (x : sx) : sx :=
+  match x with
+  | SL [_; SL ms] =>
+      SL (map (fun m => match m with
+                        | SL [_; SL ps] => SL [SB (loop_fed (map get_B ps))]
+                        | _ => err "bad member"
+                        end) ms)
+  | _ => err "bad case"
+  end.
+
 Definition dispatch (leg : list N) (x : sx) : sx :=
   if bytes_eqb leg (bs "lp") then SL [SB (lp (get_B x)); SN 1]
   else if bytes_eqb leg (bs "key") then SL (map run_key (group_of x))
   else if bytes_eqb leg (bs "ppkey") then SL (map run_ppkey (group_of x))
+  else if bytes_eqb leg (bs "reader") then run_reader x
   else if bytes_eqb leg (bs "driver") then run_drivers x
   else if bytes_eqb leg (bs "ppkey-root") then SL (map run_ppkey (group_of x))
   else err "unknown leg".
